@@ -81,6 +81,13 @@ Definition verdict (s : setup) : tres :=
 
 Definition fate_of_setup (s : setup) : fate := fate_of (verdict s).
 
+(* validation.Push: a remote message for which something has to be checked is handed to the bounded validation queue;
+   when that queue is full the message is dropped on the spot (traced as "validation queue full"), no validator ever
+   sees it and nobody is penalised.  A message nothing applies to bypasses the queue. *)
+Definition queued (s : setup) : bool := negb (s_local s) && match s_vals s with [] => false | _ => true end.
+Definition verdict_q (s : setup) (queue_full : bool) : tres := if queue_full && queued s then TThr else verdict s.
+Definition fate_q (s : setup) (queue_full : bool) : fate := fate_of (verdict_q s queue_full).
+
 (* which validators are invoked: inline ones up to and including the first Reject; async ones only
    if the inline stage did not reject, the global throttle admits the message and their own does *)
 Definition executed_inline (s : setup) : nat := snd (inline_stage (inl s) TAcc 0).
